@@ -1482,7 +1482,10 @@ class Request:
 
         # PERF: Use if..in since it is a good all-around performer; we don't
         #       know how likely params are to be specified by clients.
-        if name in params:
+        # NOTE: With auto_parse_qs_csv enabled and blank values dropped, a value
+        #   made up solely of commas (e.g., 'foo=,') is kept as an empty list;
+        #   there is no value to return then, so the param counts as missing.
+        if name in params and params[name] != []:
             # NOTE(warsaw): If the key appeared multiple times, it will be
             # stored internally as a list.  We do not define which one
             # actually gets returned, but let's pick the last one for grins.
@@ -1584,7 +1587,7 @@ class Request:
 
         # PERF: Use if..in since it is a good all-around performer; we don't
         #       know how likely params are to be specified by clients.
-        if name in params:
+        if name in params and params[name] != []:
             val_str = params[name]
             if isinstance(val_str, list):
                 val_str = val_str[-1]
@@ -1697,7 +1700,7 @@ class Request:
 
         # PERF: Use if..in since it is a good all-around performer; we don't
         #       know how likely params are to be specified by clients.
-        if name in params:
+        if name in params and params[name] != []:
             val_str = params[name]
             if isinstance(val_str, list):
                 val_str = val_str[-1]
@@ -1805,7 +1808,7 @@ class Request:
 
         # PERF: Use if..in since it is a good all-around performer; we don't
         #       know how likely params are to be specified by clients.
-        if name in params:
+        if name in params and params[name] != []:
             val_str = params[name]
             if isinstance(val_str, list):
                 val_str = val_str[-1]
@@ -1913,7 +1916,7 @@ class Request:
 
         # PERF: Use if..in since it is a good all-around performer; we don't
         #       know how likely params are to be specified by clients.
-        if name in params:
+        if name in params and params[name] != []:
             val_str = params[name]
             if isinstance(val_str, list):
                 val_str = val_str[-1]
